@@ -77,7 +77,10 @@ def deep_copy(v):
 
 
 class Interp:
-    def __init__(self, module, globals_init=None, f32_mode=False, max_steps=400000):
+    def __init__(self, module, globals_init=None, f32_mode=False, max_steps=400000, floor_mod=False):
+        # floor_mod: `%` with a negative operand is evaluated like the VM does (floored) instead of being out of
+        # domain.  Only C06 uses it, where this interpreter merely filters the numeric domain and the VM is the oracle.
+        self.floor_mod = floor_mod
         self.m = module
         self.globals = {}
         for t, n in module.globals:
@@ -199,7 +202,9 @@ class Interp:
             q = abs(a) // abs(b)
             r = q if (a >= 0) == (b >= 0) else -q
         else:
-            if b <= 0 or a < 0:
+            if b == 0:
+                raise OutOfDomain("% by zero")
+            if (b < 0 or a < 0) and not self.floor_mod:
                 raise OutOfDomain("% outside a>=0, b>0")
             r = a % b
         if t == UINT:
